@@ -25,6 +25,12 @@
 //!   (plain sends) alone — a blocking send never discards anything, so it never moves that counter — and B is 1 iff
 //!   the call's first attempt found the queue full or closed (`b=?` against a live or late receiver thread with a
 //!   full queue, where that depends on thread scheduling).
+//! case: (blslow API D_MS T_MS N CAP) — a SLOW processor behind the real `emit_batcher::tokio::spawn` (see `run_slow`):
+//!   one attempt takes D (1 s … 120 s of the receiver runtime's clock, which the processor pauses so that they cost
+//!   nothing), the flush (API async: `tokio::flush` awaited in a current-thread runtime; tokio / sync: the blocking
+//!   ones on a plain thread; timeout T, real time) is requested while that attempt is in flight.
+//!   output: `<flush result>,<items processed when the batch's watchers were notified>,<… when the flush returned>`;
+//!   oracle c07-spawn-flush (true although an item sent before the flush has not been through the processor).
 //! Only deterministic combinations are generated: a live receiver gets a timeout of 3 s (so the outcome does not
 //! depend on thread scheduling), a stalled or dropped one gets 0 / 30 ms.
 //!
@@ -106,6 +112,23 @@ fn seq_cases() -> Vec<String> {
     v.push("(blctx tokio mtndb ct plain mtndb ct)".into());
     v.push("(blctx tokio ct mtndb plain)".into());
     v.push("(blctx sync mtndb ct plain)".into());
+    v.extend(slow_cases());
+    v
+}
+/// a processor whose single attempt takes long (see `run_slow`): however long, a flush requested meanwhile resolves
+/// `true` only after the attempt has finished
+fn slow_cases() -> Vec<String> {
+    let mut v = Vec::new();
+    for d in [1000u64, 29000, 31000, 120000] {
+        for (n, cap) in [(1usize, 1usize), (2, 4)] {
+            v.push(format!("(blslow async {} 60000 {} {})", d, n, cap));
+        }
+    }
+    for api in ["tokio", "sync"] {
+        for d in [1000u64, 31000] {
+            v.push(format!("(blslow {} {} 60000 2 4)", api, d));
+        }
+    }
     v
 }
 fn gen_flush(rng: &mut Rng, tier: Tier, n: usize) -> Vec<String> {
@@ -480,6 +503,130 @@ fn run_seq(line: &str) -> Option<String> {
     })
 }
 
+/// `(blslow API D_MS T_MS N CAP)`: the receiver runs behind the REAL `emit_batcher::tokio::spawn` (its own thread,
+/// its own current-thread runtime); N ≤ CAP items are sent before it starts, so its first hand-off takes them all.
+/// The processor is slow: one attempt takes D on the receiver runtime's clock — which the processor PAUSES on its
+/// first call (`tokio::time::pause()`, a current-thread runtime: tokio then advances the clock to the next timer
+/// whenever the runtime is idle, so 120 s cost microseconds) — plus 3 ms of real time, and only then records the
+/// batch. It starts its wait only once the flush has been requested (bounded real-time hold), so the request always
+/// lands while the attempt is in flight:
+///   1. a companion `when_flushed` watcher is registered — it is notified in the same pass as the flush's own
+///      watcher and samples, ON THE RECEIVER THREAD at that very instant, how many items have been recorded;
+///   2. the flush is requested (async: the future is polled once, which registers its watcher; blocking: the call is
+///      made, the hold is released 20 ms later) with a timeout of T of REAL time (the caller's runtime is not paused);
+///   3. the processor is released, the flush awaited, the record sampled again when it returns.
+/// output `<result>,<recorded at notification>,<recorded at return>`; the flush may report `true` only if all N items
+/// are recorded at both instants — however long the attempt took (the model has no time in it: `flush_sound`).
+fn run_slow(line: &str) -> Option<String> {
+    use std::sync::atomic::{AtomicBool, AtomicUsize, Ordering};
+    use std::sync::{mpsc, Mutex};
+    let s = Sexp::parse(line)?;
+    let (tag, a) = s.as_tagged()?;
+    if tag != "blslow" || a.len() != 5 {
+        return None;
+    }
+    let api = match a[0].as_atom()? {
+        "sync" => Api::Sync,
+        "tokio" => Api::Tokio,
+        "async" => Api::Async,
+        _ => return None,
+    };
+    let d = Duration::from_millis(a[1].as_u64()?);
+    let timeout = Duration::from_millis(a[2].as_u64()?);
+    let (n, cap) = (a[3].as_usize()?, a[4].as_usize()?);
+    // the flush has to outlast the (virtual) attempt comfortably in REAL time; no truncation in the prefill
+    if n == 0 || n > cap || cap > 64 || d > Duration::from_secs(3600) || timeout < Duration::from_secs(10) || timeout > Duration::from_secs(600) {
+        return None;
+    }
+    let (sender, receiver): (Sender<Vec<u64>>, Receiver<Vec<u64>>) = emit_batcher::bounded(cap);
+    for i in 0..n {
+        sender.send(i as u64 + 1);
+    }
+    let processed: Arc<Mutex<Vec<u64>>> = Arc::new(Mutex::new(Vec::new()));
+    let started = Arc::new(AtomicUsize::new(0));
+    let (go_tx, go_rx) = mpsc::channel::<()>();
+    let go_rx = Arc::new(Mutex::new(go_rx));
+    let handle = {
+        let (processed, started) = (processed.clone(), started.clone());
+        let paused = AtomicBool::new(false);
+        emit_batcher::tokio::spawn("hbatcher_slow_rx", receiver, move |batch: Vec<u64>| {
+            // user code running inside the receiver's runtime: freeze its clock (once)
+            if !paused.swap(true, Ordering::SeqCst) {
+                tokio::time::pause();
+            }
+            let (processed, started, go_rx) = (processed.clone(), started.clone(), go_rx.clone());
+            async move {
+                if started.fetch_add(1, Ordering::SeqCst) == 0 {
+                    // real time: hold the attempt until the flush has been requested
+                    let _ = go_rx.lock().unwrap().recv_timeout(Duration::from_secs(5));
+                }
+                tokio::time::sleep(d).await; // the receiver runtime's (frozen, auto-advancing) clock
+                std::thread::sleep(Duration::from_millis(3)); // real time
+                processed.lock().unwrap().extend(batch);
+                Ok(())
+            }
+        })
+        .ok()?
+    };
+    let t0 = Instant::now();
+    while started.load(Ordering::SeqCst) == 0 && t0.elapsed() < Duration::from_secs(5) {
+        std::thread::sleep(Duration::from_micros(200));
+    }
+    let at_notify: Arc<Mutex<Option<usize>>> = Arc::new(Mutex::new(None));
+    {
+        let (at_notify, processed) = (at_notify.clone(), processed.clone());
+        sender.when_flushed(move || {
+            *at_notify.lock().unwrap() = Some(processed.lock().unwrap().len());
+        });
+    }
+    let res: Option<(bool, usize)> = match api {
+        Api::Async => {
+            let rt = tokio::runtime::Builder::new_current_thread().enable_all().build().ok()?;
+            let (sender, processed) = (&sender, processed.clone());
+            hcommon::catch(|| {
+                rt.block_on(async move {
+                    let fl = emit_batcher::tokio::flush(sender, timeout);
+                    tokio::pin!(fl);
+                    // one poll registers the watcher
+                    let first = std::future::poll_fn(|cx| std::task::Poll::Ready(std::future::Future::poll(fl.as_mut(), cx))).await;
+                    let _ = go_tx.send(());
+                    let r = match first {
+                        std::task::Poll::Ready(r) => r,
+                        std::task::Poll::Pending => fl.await,
+                    };
+                    (r, processed.lock().unwrap().len())
+                })
+            })
+        }
+        _ => {
+            std::thread::spawn(move || {
+                std::thread::sleep(Duration::from_millis(20));
+                let _ = go_tx.send(());
+            });
+            hcommon::catch(|| {
+                let r = match api {
+                    Api::Sync => emit_batcher::sync::blocking_flush(&sender, timeout),
+                    _ => emit_batcher::tokio::blocking_flush(&sender, timeout),
+                };
+                (r, processed.lock().unwrap().len())
+            })
+        }
+    };
+    drop(sender);
+    let _ = handle.join();
+    Some(match res {
+        None => "panic\tFAIL:c08-panic".into(),
+        Some((r, at_return)) => {
+            let at_notify = *at_notify.lock().unwrap();
+            let mut out = format!("{},{},{}", r, at_notify.map_or("-".to_string(), |k| k.to_string()), at_return);
+            if r && (at_notify != Some(n) || at_return != n) {
+                out.push_str("\tFAIL:c07-spawn-flush");
+            }
+            out
+        }
+    })
+}
+
 /// Every case runs under a time limit (guard.rs): the longest legitimate case takes ≈ 1 s (the timing cases) — a
 /// live receiver gets a 3 s timeout but is served at once — so a call that has not come back after 8 s (2 s once a
 /// hang has been seen in this process) is wedged: the state lock is held for good (e.g. by a receiver that invoked a
@@ -556,6 +703,9 @@ fn run_blocking_inner(line: &str) -> String {
     }
     if line.starts_with("(blctx") {
         return run_ctx_seq(line).unwrap_or_else(|| "bad-case".into());
+    }
+    if line.starts_with("(blslow") {
+        return run_slow(line).unwrap_or_else(|| "bad-case".into());
     }
     let Some(c) = parse(line) else {
         return "bad-case".into();
